@@ -198,6 +198,17 @@ def r2_neighbours(ctx, repo, cls, kind):
                 and text(s.value.left) == text(s.targets[0]).replace("Store", "Load"):
             disp = (s, s.targets[0].slice, type(s.value.op), s.value.right)
     if disp is None:
+        # a displaced coordinate that is post-processed (clipped, rounded, min/max-ed) is not displaced by exactly the tolerance
+        for s in body_stmts:
+            if isinstance(s, ast.Assign) and len(s.targets) == 1 and isinstance(s.targets[0], ast.Subscript) \
+                    and access_path(s.targets[0].value) == vname and isinstance(s.value, ast.Call):
+                inner_sum = [n for n in ast.walk(s.value) if isinstance(n, ast.BinOp) and isinstance(n.op, (ast.Add, ast.Sub))
+                             and any(access_path(x) in (text(s.targets[0]), "%s.vector[%s]" % (ind, text(s.targets[0].slice))) for x in (n.left, n.right))]
+                if inner_sum:
+                    ctx.violated("R2", construct, where(mod, s),
+                                 "the displaced coordinate is passed through %s(...): the neighbour is not displaced by exactly +/- the tolerance "
+                                 "(e.g. for designs closer to a bound than the tolerance)" % text(s.value.func), key="displacement")
+                    return
         ctx.inconclusive("R2", construct, where(mod, inner), "displacement statement `%s[axis] += ...` not found" % vname, key="displacement")
         return
     dstmt, didx, dop, dval = disp
